@@ -437,14 +437,31 @@ func scenMassPopulation(start int64, blocks, perBlock int) *scenario {
 	s := &scenario{name: "mass-population", start: start}
 	n := 0
 	s.step = func(sc *scenCtx, rel int64) {
-		k := reservedKey(sc.hr, 5)
-		if k == nil || rel >= int64(blocks) {
+		var ks []*Key
+		for _, i := range []int{3, 4, 5} {
+			if k := reservedKey(sc.hr, i); k != nil {
+				ks = append(ks, k)
+			}
+		}
+		if len(ks) == 0 || rel >= int64(blocks) {
 			return
 		}
+		first := map[string]*TxInfo{}
 		for j := 0; j < perBlock; j++ {
 			n++
+			k := ks[j%len(ks)] // several senders take turns: each of them is idle while the others are active
 			to := sha256sum([]byte(fmt.Sprintf("population-%d", n)))[:20]
-			sc.addFast(k, to, big.NewInt(1))
+			ti := sc.addFast(k, to, big.NewInt(1))
+			if first[k.A()] == nil {
+				first[k.A()] = ti
+			}
+		}
+		// every sender's first transfer of this block once more at its end (same-block duplicates)
+		for _, k := range ks {
+			f := first[k.A()]
+			dup := &TxInfo{Tx: f.Tx, Raw: f.Raw, Hash: f.Hash, Label: "scenario:duplicate-of-first-population-transfer", Pub: f.Pub, SigOK: true, Intend: false}
+			sc.txs = append(sc.txs, dup)
+			sc.b.Txs = append(sc.b.Txs, dup.Raw)
 		}
 		sc.hr.C.Count("scenario.mass-population-accounts", perBlock)
 	}
@@ -452,9 +469,11 @@ func scenMassPopulation(start int64, blocks, perBlock int) *scenario {
 }
 
 // addFast appends a plain transfer without scanning the block for earlier transactions of the sender.
-func (sc *scenCtx) addFast(k *Key, to []byte, amt *big.Int) {
+func (sc *scenCtx) addFast(k *Key, to []byte, amt *big.Int) *TxInfo {
 	if sc.added == nil {
 		sc.added = map[string]uint64{}
+	}
+	if _, ok := sc.added[k.A()]; !ok {
 		sc.added[k.A()] = sc.nonce(k)
 	}
 	P := sc.pre.Params
@@ -464,4 +483,5 @@ func (sc *scenCtx) addFast(k *Key, to []byte, amt *big.Int) {
 	ti := &TxInfo{Tx: tx, Raw: raw, Hash: hx(sha256sum(raw)), Label: "scenario:population-transfer", Pub: k.Pub, SigOK: true, Intend: true}
 	sc.txs = append(sc.txs, ti)
 	sc.b.Txs = append(sc.b.Txs, raw)
+	return ti
 }
